@@ -106,12 +106,24 @@ impl Bop {
 /// Text of a token sequence. `symbols` selects && || ! -> <->; `glue` writes implicit products
 /// (a number or a closing parenthesis directly followed by a factor) without a space.
 pub fn render(toks: &[Tok], names: &[String], symbols: bool) -> String {
+    render_spaced(toks, names, symbols, false)
+}
+
+/// `tight` writes every operator that is not a word without blanks around it (a&&b, a->b, 2*-x).
+pub fn render_spaced(toks: &[Tok], names: &[String], symbols: bool, tight: bool) -> String {
     let mut s = String::new();
     for (i, t) in toks.iter().enumerate() {
         let piece = match t {
             Tok::Num(f) => crate::text::num_text(*f),
             Tok::Var(v) => names[*v].clone(),
-            Tok::Op(o) => format!(" {} ", if symbols { o.symbol() } else { o.keyword() }),
+            Tok::Op(o) => {
+                let w = if symbols { o.symbol() } else { o.keyword() };
+                if tight && !w.chars().next().is_some_and(|c| c.is_alphabetic()) {
+                    w.to_string()
+                } else {
+                    format!(" {w} ")
+                }
+            }
             Tok::Neg => "-".to_string(),
             Tok::Not => {
                 if symbols {
